@@ -14,6 +14,7 @@ mod live;
 mod c15;
 mod tl;
 mod c11;
+mod c03;
 
 fn main() {
     let argv: Vec<String> = std::env::args().collect();
@@ -29,12 +30,14 @@ fn main() {
         "c06" => c06::run(&a),
         "c14mut" => c14::run_mut(&a),
         "c14files" => c14::run_files(&a),
+        "c14synth" => c14::run_synth(&a),
         "ctxuc" => ctx::run_ucontext(&a),
         "ctxpt" => ctx::run_ptrace(&a),
         "c15" => c15::run(&a),
         "tl" => tl::run(&a),
         "reuse" => tl::run_reuse(&a),
         "c11" => c11::run(&a),
+        "c03" => c03::run(&a),
         x => { eprintln!("unknown subcommand {x}"); std::process::exit(2); }
     }
 }
